@@ -351,8 +351,8 @@ type switchDA struct {
 	cur coreda.DA
 }
 
-func (w *switchDA) get() coreda.DA { w.mu.Lock(); defer w.mu.Unlock(); return w.cur }
-func (w *switchDA) set(d coreda.DA) { w.mu.Lock(); w.cur = d; w.mu.Unlock() }
+func (w *switchDA) get() coreda.DA                                   { w.mu.Lock(); defer w.mu.Unlock(); return w.cur }
+func (w *switchDA) set(d coreda.DA)                                  { w.mu.Lock(); w.cur = d; w.mu.Unlock() }
 func (w *switchDA) GasPrice(c context.Context) (float64, error)      { return w.get().GasPrice(c) }
 func (w *switchDA) GasMultiplier(c context.Context) (float64, error) { return w.get().GasMultiplier(c) }
 func (w *switchDA) Get(c context.Context, ids []coreda.ID, ns []byte) ([]coreda.Blob, error) {
@@ -968,9 +968,9 @@ func realSizeJobs(def uint64) []job {
 		add(Call{Sizes: []int{t}, Resp: "ok"})
 		add(Call{Sizes: split(t, 4), Resp: "ok"})
 	}
-	m := D * 243 / 1000                                   // ~480 KB with the default limit
-	add(Call{Sizes: []int{m, m, m, m}, Resp: "ok"})       // 97% — fits
-	add(Call{Sizes: []int{m, m, m, m, m}, Resp: "ok"})    // trimmed to the first four
+	m := D * 243 / 1000                                         // ~480 KB with the default limit
+	add(Call{Sizes: []int{m, m, m, m}, Resp: "ok"})             // 97% — fits
+	add(Call{Sizes: []int{m, m, m, m, m}, Resp: "ok"})          // trimmed to the first four
 	add(Call{Sizes: []int{m, m, m, m, D - 4*m, 1}, Resp: "ok"}) // first five fill the limit exactly
 	add(Call{Sizes: split(D*99/100, 3), Resp: "err", Err: &ErrSpec{Sent: []int{3}, Prefix: "failed to submit"}})
 	add(Call{Sizes: split(D*9/10, 2), Resp: "partial", K: 1})
